@@ -356,6 +356,13 @@ stream_step(struct stream *stream)
 		return -1;
 	}
 
+	/* Avoid overflows in clock arithmetic */
+	if (ovni_ev_get_clock(stream->cur_ev) > (uint64_t) INT64_MAX / 4) {
+		err("stream '%s' has an event with clock too large at offset %"PRIi64,
+				stream->relpath, stream->offset);
+		return -1;
+	}
+
 	int64_t clock = stream_evclock(stream, stream->cur_ev);
 
 	/* Ensure the clock grows monotonically if unsorted flag not set */
